@@ -218,7 +218,7 @@ func (ex *Exec) instr(fr *Frame, st *State, in ssa.Instruction) {
 			}
 			fr.Regs[t] = sym.App(sym.Int, "sel", args...)
 		case *sym.Term: // string
-			fr.Regs[t] = sym.App(sym.Int, "byteat", a, idx)
+			fr.Regs[t] = ByteAt(a, idx)
 		default:
 			ex.fail("index of %s at %s", ValString(x), ex.Position(t.Pos()))
 			fr.Regs[t] = sym.Fresh(sym.Any, "index", TaintOf(x))
@@ -400,14 +400,7 @@ func (ex *Exec) unknownOf(t types.Type, name string, taint uint64) Val {
 	return ex.CellToValue(c, t)
 }
 
-func byteAt(x, idx *sym.Term) *sym.Term {
-	if x.IsStrConst() {
-		if i, ok := idx.Int64(); ok && i >= 0 && int(i) < len(x.S) {
-			return sym.ConstI(int64(x.S[i]))
-		}
-	}
-	return sym.App(sym.Int, "byteat", x, idx)
-}
+func byteAt(x, idx *sym.Term) *sym.Term { return ByteAt(x, idx) }
 
 func (ex *Exec) binop(st *State, op token.Token, xv, yv Val, xt types.Type, pos token.Pos) Val {
 	xv, yv = st.Resolve(xv), st.Resolve(yv)
